@@ -430,3 +430,78 @@
 ; strings made of the white space skipWhiteSpace swallows between messages
 (define-fun isWsStr ((s String)) Bool
   (str.in_re s (re.* (re.union (str.to_re "\u{9}") (str.to_re "\u{a}") (str.to_re "\u{b}") (str.to_re "\u{c}") (str.to_re "\u{d}") (str.to_re " ")))))
+
+;@chunk kvtext kvText kvOfText kvSeqText hdrSeqText
+; text of one parameter (valueless parameters print their name only) and the pair a parameter text denotes
+(define-fun kvText ((kv D_KeyValue)) String
+  (ite (> (str.len (KeyValue_Value kv)) 0) (str.++ (KeyValue_Key kv) "=" (KeyValue_Value kv)) (KeyValue_Key kv)))
+(define-fun kvOfText ((p String)) D_KeyValue
+  (ite (>= (str.indexof p "=" 0) 0)
+       (mk_KeyValue (str.substr p 0 (str.indexof p "=" 0)) (str.substr p (+ (str.indexof p "=" 0) 1) (str.len p)))
+       (mk_KeyValue p "")))
+; text of the first i parameters of a list, each preceded by sep (";" for uri- and header parameters)
+(declare-fun kvSeqText (String Sq_D_KeyValue Int) String)
+(assert (forall ((sep String) (ps Sq_D_KeyValue)) (! (= (kvSeqText sep ps 0) "") :pattern ((kvSeqText sep ps 0)))))
+(assert (forall ((sep String) (ps Sq_D_KeyValue) (i Int))
+  (! (=> (and (> i 0) (<= i (sq_len_D_KeyValue ps)))
+         (= (kvSeqText sep ps i) (str.++ (kvSeqText sep ps (- i 1)) sep (kvText (sq_nth_D_KeyValue ps (- i 1))))))
+     :pattern ((kvSeqText sep ps i)))))
+; text of the first i URI headers: ?k=v&k=v...
+(declare-fun hdrSeqText (Sq_D_KeyValue Int) String)
+(assert (forall ((ps Sq_D_KeyValue)) (! (= (hdrSeqText ps 0) "") :pattern ((hdrSeqText ps 0)))))
+(assert (forall ((ps Sq_D_KeyValue) (i Int))
+  (! (=> (and (> i 0) (<= i (sq_len_D_KeyValue ps)))
+         (= (hdrSeqText ps i) (str.++ (hdrSeqText ps (- i 1)) (ite (= i 1) "?" "&") (KeyValue_Key (sq_nth_D_KeyValue ps (- i 1))) "=" (KeyValue_Value (sq_nth_D_KeyValue ps (- i 1))))))
+     :pattern ((hdrSeqText ps i)))))
+
+;@chunk addrtext sipFullText addrSpecText nameAddrText viaParamText viaHeadText
+; full text of a decoded SIP URI, of an addr-spec, of a name-addr and of one Via entry, as the printers must emit them
+(define-fun sipFullText ((H_SIPURI_Scheme (Array Int String)) (H_SIPURI_User (Array Int String)) (H_SIPURI_Password (Array Int String)) (H_SIPURI_Host (Array Int String)) (H_SIPURI_port (Array Int Int)) (H_SIPURI_Parameters (Array Int Sq_D_KeyValue)) (H_SIPURI_Headers (Array Int Sq_D_KeyValue)) (u Int)) String
+  (str.++ (sipBaseU H_SIPURI_Scheme H_SIPURI_User H_SIPURI_Password H_SIPURI_Host H_SIPURI_port u)
+          (kvSeqText ";" (select H_SIPURI_Parameters u) (sq_len_D_KeyValue (select H_SIPURI_Parameters u)))
+          (hdrSeqText (select H_SIPURI_Headers u) (sq_len_D_KeyValue (select H_SIPURI_Headers u)))))
+(define-fun addrSpecText ((H_SIPURI_Scheme (Array Int String)) (H_SIPURI_User (Array Int String)) (H_SIPURI_Password (Array Int String)) (H_SIPURI_Host (Array Int String)) (H_SIPURI_port (Array Int Int)) (H_SIPURI_Parameters (Array Int Sq_D_KeyValue)) (H_SIPURI_Headers (Array Int Sq_D_KeyValue)) (H_AddrSpec_sipURI (Array Int Int)) (H_AddrSpec_absoluteURI (Array Int Int)) (H_AbsoluteURI_absURI (Array Int String)) (a Int)) String
+  (ite (not (= (select H_AddrSpec_sipURI a) 0))
+       (sipFullText H_SIPURI_Scheme H_SIPURI_User H_SIPURI_Password H_SIPURI_Host H_SIPURI_port H_SIPURI_Parameters H_SIPURI_Headers (select H_AddrSpec_sipURI a))
+       (ite (not (= (select H_AddrSpec_absoluteURI a) 0)) (select H_AbsoluteURI_absURI (select H_AddrSpec_absoluteURI a)) "")))
+(define-fun nameAddrText ((H_SIPURI_Scheme (Array Int String)) (H_SIPURI_User (Array Int String)) (H_SIPURI_Password (Array Int String)) (H_SIPURI_Host (Array Int String)) (H_SIPURI_port (Array Int Int)) (H_SIPURI_Parameters (Array Int Sq_D_KeyValue)) (H_SIPURI_Headers (Array Int Sq_D_KeyValue)) (H_AddrSpec_sipURI (Array Int Int)) (H_AddrSpec_absoluteURI (Array Int Int)) (H_AbsoluteURI_absURI (Array Int String)) (H_NameAddr_DisplayName (Array Int String)) (H_NameAddr_Addr (Array Int Int)) (n Int)) String
+  (str.++ (select H_NameAddr_DisplayName n) "<"
+          (addrSpecText H_SIPURI_Scheme H_SIPURI_User H_SIPURI_Password H_SIPURI_Host H_SIPURI_port H_SIPURI_Parameters H_SIPURI_Headers H_AddrSpec_sipURI H_AddrSpec_absoluteURI H_AbsoluteURI_absURI (select H_NameAddr_Addr n))
+          ">"))
+; a Via entry: sent-protocol, sent-by (the port only if the text had one), parameters
+(define-fun viaHeadText ((H_ViaParam_ProtocolName (Array Int String)) (H_ViaParam_ProtocolVersion (Array Int String)) (H_ViaParam_Transport (Array Int String)) (H_ViaParam_Host (Array Int String)) (H_ViaParam_port (Array Int Int)) (v Int)) String
+  (str.++ (select H_ViaParam_ProtocolName v) "/" (select H_ViaParam_ProtocolVersion v) "/" (select H_ViaParam_Transport v) " " (select H_ViaParam_Host v)
+          (ite (not (= (select H_ViaParam_port v) 0)) (str.++ ":" (itoa (select H_ViaParam_port v))) "")))
+(define-fun viaParamText ((H_ViaParam_ProtocolName (Array Int String)) (H_ViaParam_ProtocolVersion (Array Int String)) (H_ViaParam_Transport (Array Int String)) (H_ViaParam_Host (Array Int String)) (H_ViaParam_port (Array Int Int)) (H_ViaParam_Params (Array Int Sq_D_KeyValue)) (v Int)) String
+  (str.++ (viaHeadText H_ViaParam_ProtocolName H_ViaParam_ProtocolVersion H_ViaParam_Transport H_ViaParam_Host H_ViaParam_port v)
+          (kvSeqText ";" (select H_ViaParam_Params v) (sq_len_D_KeyValue (select H_ViaParam_Params v)))))
+
+;@chunk msgtext anyString hdrLine hdrsText hdrsTextU firstLineText
+; text of a header value as fmt's %v prints it: a raw (never decoded) value is the received string itself; a decoded
+; value prints through its String method - anyString then denotes that text in the heap of the call being verified
+; (contracts never relate it across states in which the decoded object differs)
+(declare-fun anyString (Any) String)
+(assert (forall ((x Any)) (! (=> (= (tyOf x) 1) (= (anyString x) (strOf x))) :pattern ((anyString x)))))
+(define-fun hdrLine ((H_Header_name (Array Int String)) (H_Header_value (Array Int Any)) (h Int)) String
+  (str.++ (select H_Header_name h) ": " (anyString (select H_Header_value h)) "\u{d}\u{a}"))
+; text of the first i headers of the list: one line each, in order, every spelling of Content-Length left out
+(declare-fun hdrsTextU ((Array Int String) (Array Int Any) Sq_Int Int) String)
+(define-fun hdrsText ((H_Header_name (Array Int String)) (H_Header_value (Array Int Any)) (hs Sq_Int) (i Int)) String (hdrsTextU H_Header_name H_Header_value hs i))
+(assert (forall ((H_Header_name (Array Int String)) (H_Header_value (Array Int Any)) (hs Sq_Int))
+  (! (= (hdrsTextU H_Header_name H_Header_value hs 0) "") :pattern ((hdrsTextU H_Header_name H_Header_value hs 0)))))
+(assert (forall ((H_Header_name (Array Int String)) (H_Header_value (Array Int Any)) (hs Sq_Int) (i Int))
+  (! (=> (and (> i 0) (<= i (sq_len_Int hs)))
+         (= (hdrsTextU H_Header_name H_Header_value hs i)
+            (str.++ (hdrsTextU H_Header_name H_Header_value hs (- i 1))
+                    (ite (isHdr H_Header_name (sq_nth_Int hs (- i 1)) "Content-Length") "" (hdrLine H_Header_name H_Header_value (sq_nth_Int hs (- i 1)))))))
+     :pattern ((hdrsTextU H_Header_name H_Header_value hs i)))))
+; start line of a message as it must be re-emitted
+(define-fun firstLineText ((H_Message_request (Array Int Int)) (H_Message_response (Array Int Int)) (H_RequestLine_method (Array Int String)) (H_RequestLine_requestURI (Array Int Int)) (H_RequestLine_version (Array Int String)) (H_StatusLine_version (Array Int String)) (H_StatusLine_statusCode (Array Int Int)) (H_StatusLine_reason (Array Int String))
+   (H_SIPURI_Scheme (Array Int String)) (H_SIPURI_User (Array Int String)) (H_SIPURI_Password (Array Int String)) (H_SIPURI_Host (Array Int String)) (H_SIPURI_port (Array Int Int)) (H_SIPURI_Parameters (Array Int Sq_D_KeyValue)) (H_SIPURI_Headers (Array Int Sq_D_KeyValue)) (H_AddrSpec_sipURI (Array Int Int)) (H_AddrSpec_absoluteURI (Array Int Int)) (H_AbsoluteURI_absURI (Array Int String)) (m Int)) String
+  (ite (not (= (select H_Message_request m) 0))
+       (str.++ (select H_RequestLine_method (select H_Message_request m)) " "
+               (addrSpecText H_SIPURI_Scheme H_SIPURI_User H_SIPURI_Password H_SIPURI_Host H_SIPURI_port H_SIPURI_Parameters H_SIPURI_Headers H_AddrSpec_sipURI H_AddrSpec_absoluteURI H_AbsoluteURI_absURI (select H_RequestLine_requestURI (select H_Message_request m)))
+               " " (select H_RequestLine_version (select H_Message_request m)) "\u{d}\u{a}")
+       (ite (not (= (select H_Message_response m) 0))
+            (str.++ (select H_StatusLine_version (select H_Message_response m)) " " (itoa (select H_StatusLine_statusCode (select H_Message_response m))) " " (select H_StatusLine_reason (select H_Message_response m)) "\u{d}\u{a}")
+            "")))
